@@ -33,8 +33,14 @@ pub struct UiToken {
 #[derive(Default)]
 pub struct UiTokenCollection {
     tokens: Vec<UiToken>,
-    char_sizes: Vec<usize>
+    char_sizes: Vec<usize>,
+    #[cfg(feature = "verif-hooks")]
+    verif_id: usize
 }
+
+/* Verification hook: every operation on a collection is reported through the `log` facade (target "verif_ui"). */
+#[cfg(feature = "verif-hooks")]
+static VERIF_COLLECTION_COUNTER: core::sync::atomic::AtomicUsize = core::sync::atomic::AtomicUsize::new(1);
 
 pub struct UiTokenIterator<'a> {
     iter: alloc::slice::Iter<'a, UiToken>
@@ -52,9 +58,13 @@ impl UiTokenCollection {
     pub fn new<T: Borrow<String>>(data: T) -> UiTokenCollection {
         let mut response = UiTokenCollection {
             tokens: Vec::new(),
-            char_sizes: Vec::with_capacity(64)
+            char_sizes: Vec::with_capacity(64),
+            #[cfg(feature = "verif-hooks")]
+            verif_id: VERIF_COLLECTION_COUNTER.fetch_add(1, core::sync::atomic::Ordering::Relaxed)
         };
         response.generate_char_map(data.borrow());
+        #[cfg(feature = "verif-hooks")]
+        log::trace!(target: "verif_ui", "{} new {:?}", response.verif_id, data.borrow().as_bytes());
         response
     }
 
@@ -74,6 +84,8 @@ impl UiTokenCollection {
     /* start and end are character positions */
     #[allow(dead_code)]
     pub fn add(&mut self, start: usize, end: usize, ui_type: UiTokenType) {
+        #[cfg(feature = "verif-hooks")]
+        log::trace!(target: "verif_ui", "{} add {} {} {:?}", self.verif_id, start, end, ui_type);
         if start < end && self.check_collision(start, end) {
             self.tokens.push(UiToken { start, end, ui_type })
         }
@@ -87,6 +99,8 @@ impl UiTokenCollection {
 
     /* start and end are byte offsets of the line; tokens are kept (and compared) in character positions */
     pub fn add_from_byte_range(&mut self, start: usize, end: usize, token_type: UiTokenType) {
+        #[cfg(feature = "verif-hooks")]
+        log::trace!(target: "verif_ui", "{} range {} {}", self.verif_id, start, end);
         let start = self.get_position(start);
         let end   = self.get_position(end);
         self.add(start, end, token_type);
@@ -127,10 +141,14 @@ impl UiTokenCollection {
     }
 
     pub fn sort(&mut self) {
+        #[cfg(feature = "verif-hooks")]
+        log::trace!(target: "verif_ui", "{} sort", self.verif_id);
         self.tokens.sort_by(|a, b| a.start.partial_cmp(&b.start).unwrap());
     }
 
     pub fn update_tokens(&mut self, position_start: usize, position_end: usize, new_type: UiTokenType) {
+        #[cfg(feature = "verif-hooks")]
+        log::trace!(target: "verif_ui", "{} update {} {} {:?}", self.verif_id, position_start, position_end, new_type);
         let ui_start_position   = self.get_position(position_start);
         let ui_end_position     = self.get_position(position_end);
 
